@@ -37,8 +37,13 @@ def run(ck):
     ck.rule("C01.R6", "every new collector is registered (register_dispatch)", floor=6)
     ck.rule("C01.R7", "who may write MAX_LEVEL / callsite interest", floor=4)
     ck.rule("C01.R8", "STATIC_MAX_LEVEL table under each max_level feature", floor=18 if ck.tier == "thorough" else 0)
+    ck.rule("C01.R9", "the callsite registry never loses a registered callsite (lock-free push/walk, as C04.R3)", floor=5)
     F = Facts("default")
     ck.configs.append("default")
+    # R5/R6 re-evaluate "every registered callsite": a callsite dropped from the list keeps its first cached interest
+    # forever, so the list's push (link, CAS, retry from the observed head) and walk are premises of this property
+    from rules import C04
+    C04.r3(ck, F, rid="C01.R9")
     r2(ck, F)
     r3(ck, F)
     r4(ck, F)
